@@ -4,6 +4,7 @@ package main
 // functions (formatting, errors with formatted text, no-ops).
 
 import (
+	"strings"
 	"fmt"
 	"go/types"
 	"math"
@@ -16,7 +17,50 @@ func init() {
 	mm := map[string]intrinsic{
 		"fmt.Errorf": func(x *Exec, fr *frame, fn *ssa.Function, a []Value) Value {
 			f, _ := a[0].(Str).Concrete()
-			return x.newError("fmt.Errorf: " + f)
+			e := x.newError("fmt.Errorf: " + f)
+			// %w: the result wraps the corresponding operand (errors.Is / errors.Unwrap see it)
+			if i := strings.Index(f, "%w"); i >= 0 {
+				n := strings.Count(f[:i], "%") - 2*strings.Count(f[:i], "%%")
+				if args := sliceVals(a[1]); n >= 0 && n < len(args) {
+					x.side[fmt.Sprintf("wrap:%p", e.(Iface).V.(Ptr).C)] = args[n]
+				}
+			}
+			return e
+		},
+		// errors.Is: identity along the chain of %w wrappers (errors with their own Is or
+		// Unwrap methods are a model limit)
+		"errors.Is": func(x *Exec, fr *frame, fn *ssa.Function, a []Value) Value {
+			cur := x.asIface(a[0])
+			target := x.asIface(a[1])
+			if target.T == nil {
+				return x.ts.Bool(cur.T == nil)
+			}
+			for depth := 0; depth < 8; depth++ {
+				if cur.T == nil {
+					return x.ts.tFals
+				}
+				eq := x.ifaceEq(cur, target)
+				if eq.IsConst() {
+					if eq.C == 1 {
+						return x.ts.tTrue
+					}
+				} else if x.branch(eq, "errors-is") {
+					return x.ts.tTrue
+				}
+				p, isPtr := cur.V.(Ptr)
+				if !isPtr {
+					return x.ts.tFals
+				}
+				w, ok := x.side[fmt.Sprintf("wrap:%p", p.C)]
+				if !ok {
+					if x.eng.lookupMethodByName(cur.T, "Unwrap") != nil || x.eng.lookupMethodByName(cur.T, "Is") != nil {
+						x.unsupported("model limit: errors.Is on an error type with Unwrap or Is methods")
+					}
+					return x.ts.tFals
+				}
+				cur = x.asIface(w)
+			}
+			return x.ts.tFals
 		},
 		"fmt.Sprintf": func(x *Exec, fr *frame, fn *ssa.Function, a []Value) Value {
 			return x.sprintfAny(a[0].(Str), sliceVals(a[1]))
